@@ -184,6 +184,22 @@ CLAIMED["C14"] = dict(
         "known finding (DataClass instances are not encodable at all).",
    technique="Coq proofs (lia with Euclidean division) over the field arithmetic + field-level correspondence + round-trip oracle "
              "on the implementation", design="§8 C14")
+CLAIMED["C13"] = dict(
+   text="Machine-checked proof (Coq), partial (object structure): a model of what JsonSchemaGenerator lists for a data class, and "
+        "theorems tying it to the field contract of C05: the listed input properties are exactly the fields that take input in the "
+        "class's mode and each listed name is an accepted key of its own field; `required` lists exactly the fields whose absence is "
+        "an error (missing required => the parse fails, missing unrequired => no absence error); additionalProperties is exactly the "
+        "addition policy (false: unknown key rejected, true: kept, absent: dropped); in the output view every required property is "
+        "present in what the parser produces and a Schema instance holds a field's key only if the output schema lists it.",
+   note="Trusted: Coq kernel; Model/SchemaGen.v as a description of generate_for_dataclass (tied by the schema-structure suite on "
+        "random classes, both views). Partial: that every generated document (classes, constrained scalars, containers, unions) is "
+        "JSON and a valid draft 2020-12 schema and that every produced value validates against it is decided with the jsonschema "
+        "reference implementation (python3-vt subprocess) by the schema-validity suite; the input schema is also probed against the "
+        "parser on the implementation (input-schema-probes). $defs / $ref, function schemas, formats are not covered. Classes with the "
+        "'preserve' policy or forced defaults are outside the value-validation domain. Four generator defects and one is_no_input "
+        "defect repaired in /repo (fix: 7c898a4 5574393 b88e74a 36ce38b and the is_no_input commit).",
+   technique="Coq proofs (corollaries of the C05 contract) over the generator model + structure correspondence + jsonschema "
+             "reference validator and parser probes on the implementation", design="§8 C13")
 NOT_YET = {}
 for i in range(1, 21):
     pid = "C%02d" % i
